@@ -25,6 +25,14 @@ use std::sync::Arc;
 use std::sync::Mutex;
 #[cfg(not(target_arch = "wasm32"))]
 use std::sync::atomic::Ordering;
+#[cfg(repe_verif)]
+use crate::verif_seam::{
+    net::{TcpListener, TcpStream, ToSocketAddrs},
+    thread,
+};
+#[cfg(repe_verif)]
+use std::{sync::atomic::AtomicBool, time::Duration};
+#[cfg(not(repe_verif))]
 #[cfg(not(target_arch = "wasm32"))]
 use std::{
     net::{TcpListener, TcpStream, ToSocketAddrs},
